@@ -161,6 +161,19 @@ func (p *Path) slice(xt types.Type, x, lo, hi, max Value) Value {
 			p.abortf("slicing unmodelled string")
 		}
 		n := x.length()
+		// a symbolic upper bound on a string: keep the length symbolic instead
+		// of forking over every value; the contents become unobservable.
+		if ht, ok := hi.(*smt.Term); ok && !ht.IsConst() && (lo == nil || lo.(*smt.Term).IsConst()) {
+			l := int64(0)
+			if lo != nil {
+				l, _ = asInt(lo)
+			}
+			if ht.Sort.W < 64 {
+				ht = smt.Resize(ht, 64, true)
+			}
+			p.mustHold(smt.And(smt.ULe(intConst(l), ht), smt.ULe(ht, intConst(int64(n)))), "slice bounds out of range [:?] of string")
+			return Str{opq: smt.BVSub(ht, intConst(l))}
+		}
 		l, h, _ := p.sliceBounds(lo, hi, nil, n, n)
 		if x.sym != nil {
 			return strFromTerms(x.sym[l:h])
